@@ -706,21 +706,23 @@ Section ConvGood.
 Variable St : Type.
 Variable process : St -> symbol -> outcome (St * list N).
 Variable tail : St -> outcome unit.
-Hypothesis Hproc : forall h sym, no_panic (process h sym).
+(* an invariant of the converter state under which it never panics *)
+Variable SI : St -> Prop.
+Hypothesis Hproc : forall h sym, SI h -> good (fun x => SI (fst x)) (process h sym).
 Hypothesis Htail : forall h, no_panic (tail h).
 
 Definition ct_post (s : sbuf) (x : St * sbuf * nat * option (list N)) : Prop :=
   let '(h', s', w', b') := x in
-  Inv s' /\ is_token (scat s') = false /\ length (buf s') = length (buf s) /\
+  SI h' /\ Inv s' /\ is_token (scat s') = false /\ length (buf s') = length (buf s) /\
   ((start s < start s')%nat \/ next_symbol s = Ok (None, s')) /\ (start s <= start s')%nat /\
   (b' = None -> TEnd s' w').
 
-Lemma convert_token_loop_good : forall fuel h s w b,
+Lemma convert_token_loop_good : forall fuel h s w b, SI h ->
   Inv s -> (b = None -> (w <= start s)%nat) -> is_token (scat s) = true ->
   (length (rest s) < fuel)%nat ->
   good (ct_post s) (convert_token_loop St process fuel h s w b).
 Proof.
-  induction fuel as [|f IH]; intros h s w b HI Hw Ht Hf; [lia|].
+  induction fuel as [|f IH]; intros h s w b HS HI Hw Ht Hf; [lia|].
   cbn [convert_token_loop].
   pose proof (next_symbol_gen_no_panic (fun _ => true) s) as NP. fold next_symbol in NP.
   destruct (next_symbol s) as [[r s1]| | |] eqn:E; cbn [bind good]; auto.
@@ -729,15 +731,15 @@ Proof.
   - destruct (Hr ltac:(discriminate)) as [Hlt Ht1].
     assert (Hf1 : (length (rest s1) < f)%nat).
     { rewrite (rest_length s HI) in Hf. rewrite (rest_length s1 HI1). unfold Inv in *. rewrite Hb in *. lia. }
-    specialize (Hproc h sym). destruct (process h sym) as [[h1 data]| | |]; cbn [bind good no_panic fst snd] in *; auto.
+    pose proof (Hproc h sym HS) as Hproc1. destruct (process h sym) as [[h1 data]| | |]; cbn [bind good fst snd] in *; auto.
     assert (Rec : forall s2 w2 b2, Inv s2 -> start s2 = start s1 -> scat s2 = scat s1 -> rest s2 = rest s1 ->
               length (buf s2) = length (buf s1) -> (b2 = None -> (w2 <= start s2)%nat) ->
               good (ct_post s) (convert_token_loop St process f h1 s2 w2 b2)).
     { intros s2 w2 b2 A B C D F G.
-      specialize (IH h1 s2 w2 b2 A G ltac:(congruence) ltac:(rewrite D; exact Hf1)).
+      specialize (IH h1 s2 w2 b2 Hproc1 A G ltac:(congruence) ltac:(rewrite D; exact Hf1)).
       destruct (convert_token_loop St process f h1 s2 w2 b2) as [[[[h' s'] w'] b']| | |];
         cbn [good ct_post] in *; auto.
-      destruct IH as (Q1 & Q2 & Q3 & Q4 & Q5 & Q6). split; [exact Q1|]. split; [exact Q2|].
+      destruct IH as (Q0 & Q1 & Q2 & Q3 & Q4 & Q5 & Q6). split; [exact Q0|]. split; [exact Q1|]. split; [exact Q2|].
       split; [congruence|]. split; [left; lia|]. split; [lia|exact Q6]. }
     destruct data as [|d0 dt].
     + apply Rec; auto. intros Eb. specialize (Hw Eb). lia.
@@ -746,7 +748,7 @@ Proof.
       intros [[s2 w2] b2] _ P. cbn [ad_post] in P. destruct P as (A & B & C & D & F & G).
       apply Rec; auto.
   - destruct (next_symbol_end _ _ HI Ht E) as (Hn & _ & _ & _ & Hd).
-    cbn [good ct_post]. split; [exact HI1|]. split; [exact Hn|]. split; [congruence|].
+    cbn [good ct_post]. split; [exact HS|]. split; [exact HI1|]. split; [exact Hn|]. split; [congruence|].
     split; [right; exact E|]. split; [exact Hs|]. intros Eb. specialize (Hw Eb).
     split; [exact HI1|]. split; [exact Hn|].
     destruct Hd as [Hd | Hd]; [left; lia | right; split; [lia|exact Hd]].
@@ -768,14 +770,14 @@ Qed.
 
 Definition ce_post (x : St * sbuf * nat * option (list N)) : Prop :=
   let '(h', s', w', b') := x in
-  Inv s' /\ (1 <= start s')%nat /\ fresh s' /\ (b' = None -> (w' < start s')%nat).
+  SI h' /\ Inv s' /\ (1 <= start s')%nat /\ fresh s' /\ (b' = None -> (w' < start s')%nat).
 
-Lemma convert_entry_loop_good : forall fuel h s w b,
+Lemma convert_entry_loop_good : forall fuel h s w b, SI h ->
   Inv s -> (1 <= start s)%nat -> fresh s -> (b = None -> (w < start s)%nat) ->
   (length (rest s) < fuel)%nat ->
   good ce_post (convert_entry_loop St process fuel h s w b).
 Proof.
-  induction fuel as [|f IH]; intros h s w b HI H1 Hfr Hw Hf; [lia|].
+  induction fuel as [|f IH]; intros h s w b HS HI H1 Hfr Hw Hf; [lia|].
   cbn [convert_entry_loop]. destruct (is_line_feed s).
   { cbn [good ce_post]. auto. }
   destruct (require_token s) as [[]| | |] eqn:Erq; cbn [bind good]; auto;
@@ -783,9 +785,9 @@ Proof.
   assert (Ht : is_token (scat s) = true).
   { unfold require_token in Erq. destruct (scat s); try discriminate; reflexivity. }
   assert (Hfu : (length (rest s) < fuel_of s)%nat) by (rewrite (rest_length s HI); unfold fuel_of; lia).
-  eapply good_bind; [apply (convert_token_loop_good (fuel_of s) h s w b HI)|]; auto.
+  eapply good_bind; [apply (convert_token_loop_good (fuel_of s) h s w b HS HI)|]; auto.
   { intros Eb. specialize (Hw Eb). lia. }
-  intros [[[h1 s1] w1] b1] _ P. cbn [ct_post] in P. destruct P as (HI1 & Hn1 & Hl1 & Hp1 & Hs1 & HT1).
+  intros [[[h1 s1] w1] b1] _ P. cbn [ct_post] in P. destruct P as (HS1 & HI1 & Hn1 & Hl1 & Hp1 & Hs1 & HT1).
   assert (Hprog : (start s < start s1)%nat).
   { destruct Hp1 as [Hp1 | Hp1]; [exact Hp1|]. eapply fresh_first_symbol; eauto. }
   set (wz := match b1 with None => w1 | Some _ => 0%nat end).
@@ -799,13 +801,13 @@ Proof.
   - rewrite (rest_length s HI) in Hf. rewrite (rest_length s2 HI2). unfold Inv in *. rewrite Hb2, Hl1. lia.
 Qed.
 
-Lemma convert_entry_good init s : PInv s ->
+Lemma convert_entry_good init s : SI init -> PInv s ->
   good (fun rs => PInv (snd rs)) (convert_entry St process tail init s).
 Proof.
-  intros (HI & H1 & Hfr). unfold convert_entry.
+  intros HS0 (HI & H1 & Hfr). unfold convert_entry.
   assert (Hfu : (length (rest s) < fuel_of s)%nat) by (rewrite (rest_length s HI); unfold fuel_of; lia).
-  eapply good_bind; [apply (convert_entry_loop_good (fuel_of s) init s 0 None HI H1 Hfr ltac:(intros _; lia) Hfu)|].
-  intros [[[h1 s1] w1] b1] _ P. cbn [ce_post] in P. destruct P as (A & B & C & D).
+  eapply good_bind; [apply (convert_entry_loop_good (fuel_of s) init s 0 None HS0 HI H1 Hfr ltac:(intros _; lia) Hfu)|].
+  intros [[[h1 s1] w1] b1] _ P. cbn [ce_post] in P. destruct P as (_ & A & B & C & D).
   specialize (Htail h1). destruct (tail h1); cbn [bind good no_panic] in *; auto.
   destruct b1 as [bl|].
   - cbn [good snd]. split; [exact A|]. split; [exact B|exact C].
@@ -813,7 +815,14 @@ Proof.
 Qed.
 End ConvGood.
 
-Lemma hex_process_total h sym : no_panic (hex_process h sym).
+Lemma b64_tail_total c : no_panic (b64_tail c).
+Proof.
+  unfold b64_tail, C18.Model.c64_process_tail, b64_err.
+  destruct (N.land (C18.Model.c64_next c) C18.Gen.b64_conv_fin_mask =? 0); cbn; auto;
+  repeat match goal with |- context [if ?b then _ else _] => destruct b end; cbn; auto.
+Qed.
+
+Lemma hex_process_total h sym : good (fun x : hexst * list N => True) (hex_process h sym).
 Proof.
   unfold hex_process. destruct (into_char sym); [|exact I].
   destruct (hex_digit n); [|exact I]. destruct (h_pending h); exact I.
@@ -823,25 +832,76 @@ Lemma hex_tail_total h : no_panic (hex_tail h).
 Proof. unfold hex_tail. destruct (h_pending h); exact I. Qed.
 
 Lemma convert_entry_hex_good s : PInv s -> good (fun rs => PInv (snd rs)) (convert_entry_hex s).
-Proof. apply convert_entry_good; [apply hex_process_total | apply hex_tail_total]. Qed.
+Proof.
+  apply (convert_entry_good hexst hex_process hex_tail (fun _ => True)); auto.
+  - intros h sym _. apply hex_process_total.
+  - apply hex_tail_total.
+Qed.
+
+(* the Base 64 converter (C18 model): `next` stays below 4 or is the end marker,
+   so the index into the four-octet group buffer is always in range *)
+Definition b64_si (c : C18.Model.conv64) : Prop :=
+  C18.Model.c64_next c < 4 \/ C18.Model.c64_next c = C18.Gen.b64_eof_marker.
+
+Lemma b64_tab_total ch : ch <= 127 -> exists v, C18.Model.tab_get C18.Gen.b64_decode_tab ch = Ok v.
+Proof.
+  intros H. unfold C18.Model.tab_get.
+  assert (L : length C18.Gen.b64_decode_tab = 128%nat) by (vm_compute; reflexivity).
+  destruct (nth_error C18.Gen.b64_decode_tab (N.to_nat ch)) eqn:E; [eauto|].
+  apply nth_error_None in E. lia.
+Qed.
+
+Lemma b64_process_total c sym : b64_si c -> good (fun x => b64_si (fst x)) (b64_process c sym).
+Proof.
+  intros HS. unfold b64_process. destruct (into_char sym) as [ch|]; [|exact I].
+  unfold C18.Model.c64_process_char.
+  destruct (C18.Model.c64_next c =? C18.Gen.b64_eof_marker) eqn:Ee; [cbn; exact I|].
+  apply N.eqb_neq in Ee. destruct HS as [HS | HS]; [|congruence].
+  assert (Cont : forall v, good (fun x : C18.Model.conv64 * list N => b64_si (fst x))
+     (b64_err (do inp <- C18.Model.buf4_set (C18.Model.c64_input c) (C18.Model.c64_next c) v;
+        let next' := C18.Model.c64_next c + 1 in
+        if next' =? C18.Gen.b64_conv_group then
+          let '(x0, x1, x2, x3) := inp in
+          let o0 := C18.Gen.b64_conv_oct0 x0 x1 x2 x3 in
+          if x2 =? C18.Gen.b64_pad_marker then
+            if x3 =? C18.Gen.b64_pad_marker then Ok (C18.Model.mkc64 inp C18.Gen.b64_eof_marker, [o0])
+            else Err C18.Model.E_CONV_ILLEGAL
+          else
+            let o1 := C18.Gen.b64_conv_oct1 x0 x1 x2 x3 in
+            if x3 =? C18.Gen.b64_pad_marker then Ok (C18.Model.mkc64 inp C18.Gen.b64_eof_marker, [o0; o1])
+            else Ok (C18.Model.mkc64 inp 0, [o0; o1; C18.Gen.b64_conv_oct2 x0 x1 x2 x3])
+        else Ok (C18.Model.mkc64 inp next', [])))).
+  { intros v. unfold C18.Model.buf4_set. destruct (C18.Model.c64_input c) as [[[b0 b1] b2] b3].
+    assert (Hg : C18.Gen.b64_conv_group = 4) by reflexivity. rewrite Hg.
+    destruct (N.eqb_spec (C18.Model.c64_next c) 0) as [E0|N0];
+    [|destruct (N.eqb_spec (C18.Model.c64_next c) 1) as [E1|N1];
+      [|destruct (N.eqb_spec (C18.Model.c64_next c) 2) as [E2|N2];
+        [|destruct (N.eqb_spec (C18.Model.c64_next c) 3) as [E3|N3]; [|lia]]]].
+    - rewrite E0. cbn. left. first [lia | reflexivity].
+    - rewrite E1. cbn. left. first [lia | reflexivity].
+    - rewrite E2. cbn. left. first [lia | reflexivity].
+    - rewrite E3. cbn [bind N.add N.eqb Pos.eqb Pos.add Pos.succ].
+      repeat match goal with |- context [if ?b then _ else _] => destruct b end;
+        cbn; auto; unfold b64_si; cbn; auto; first [left; first [lia | reflexivity] | right; reflexivity]. }
+  destruct (ch =? C18.Gen.b64_pad).
+  - destruct (C18.Model.c64_next c <? C18.Gen.b64_conv_pad_min); [cbn; exact I|]. apply Cont.
+  - destruct (C18.Gen.b64_conv_ascii_max <? ch) eqn:Ea; [cbn; exact I|].
+    apply N.ltb_ge in Ea. assert (Ha : ch <= 127) by (unfold C18.Gen.b64_conv_ascii_max in Ea; exact Ea).
+    destruct (b64_tab_total ch Ha) as (v & Ev). rewrite Ev. cbn [bind].
+    destruct (v =? C18.Gen.b64_conv_illegal_val); [cbn; exact I|]. apply Cont.
+Qed.
+
+Lemma convert_entry_b64_good s : PInv s -> good (fun rs => PInv (snd rs)) (convert_entry_b64 s).
+Proof.
+  apply (convert_entry_good _ b64_process b64_tail b64_si).
+  - intros h sym HS. apply b64_process_total. exact HS.
+  - apply b64_tail_total.
+  - left. cbn. lia.
+Qed.
 
 (* ------------------------------------------------ sequences of method calls *)
 
-Lemma b64_tail_total c : no_panic (b64_tail c).
-Proof.
-  unfold b64_tail, C18.Model.c64_process_tail, b64_err.
-  destruct (N.land (C18.Model.c64_next c) C18.Gen.b64_conv_fin_mask =? 0); cbn; auto;
-  repeat match goal with |- context [if ?b then _ else _] => destruct b end; cbn; auto.
-Qed.
-
-Section Meths.
-(* convert_entry(base64) runs the C18 model of the converter; that it never
-   panics is a premise here (allow = true), not needed for the other methods *)
-Variable allow : bool.
-Hypothesis Hb64 : allow = true -> forall c sym, no_panic (b64_process c sym).
-
-Definition meth_ok (m : meth) : Prop :=
-  match m with MUint _ c => c = true | MB64Entry => allow = true | _ => True end.
+Definition meth_ok (m : meth) : Prop := match m with MUint _ c => c = true | _ => True end.
 
 Lemma good_drop {A} (o : outcome (A * sbuf)) :
   good (fun rs => PInv (snd rs)) o -> good PInv (do r <- o; Ok (snd r)).
@@ -858,7 +918,7 @@ Proof.
   - subst checked. apply good_drop. apply scan_uint_good; exact HP.
   - apply good_drop. apply scan_charstr_entry_good; exact HP.
   - apply good_drop. apply convert_entry_hex_good; exact HP.
-  - apply good_drop. apply convert_entry_good; [apply Hb64; exact Hm | apply b64_tail_total | exact HP].
+  - apply good_drop. apply convert_entry_b64_good; exact HP.
 Qed.
 
 Theorem run_meths_good origin ms : Forall meth_ok ms -> forall s, PInv s -> good PInv (run_meths origin ms s).
@@ -879,11 +939,8 @@ Proof.
     repeat constructor; try (destruct reader_guards_present as (_ & E & _); exact E).
   - apply run_meths_good; assumption.
 Qed.
-End Meths.
 
 (* what T1 read from the record types' scan functions *)
-Definition has_b64 (codes : list N) : bool := existsb (N.eqb 11) codes.
-
 Lemma type_scans_decodable :
   forallb (fun x => match decode_meths (snd x) with Some _ => true | None => false end) type_scans = true.
 Proof. vm_compute. reflexivity. Qed.
@@ -897,39 +954,32 @@ Lemma schema_matches_source :
        [1; 2; 3; 4; 5; 6; 7; 8; 9; 12; 13; 14; 15; 16; 17; 33; 35; 39; 44; 52; 61] = true.
 Proof. vm_compute. split; reflexivity. Qed.
 
-Lemma decode_meth_ok allow c m : decode_meth c = Some m -> (c = 11 -> allow = true) -> meth_ok allow m.
+Lemma decode_meth_ok c m : decode_meth c = Some m -> meth_ok m.
 Proof.
   destruct reader_guards_present as (_ & Ei & Et & _).
-  unfold decode_meth. intros H Hb.
+  unfold decode_meth. intros H.
   repeat match type of H with
-  | (if ?c =? ?k then _ else _) = _ => destruct (N.eqb_spec c k); [injection H as <-; cbn; auto; try (subst; auto)|]
-  end; try discriminate.
+  | (if ?c =? ?k then _ else _) = _ => destruct (N.eqb_spec c k); [injection H as <-; cbn; auto|]
+  end; try discriminate H.
 Qed.
 
-Lemma decode_meths_ok allow : forall codes ms, decode_meths codes = Some ms ->
-  (has_b64 codes = true -> allow = true) -> Forall (meth_ok allow) ms.
+Lemma decode_meths_ok : forall codes ms, decode_meths codes = Some ms -> Forall meth_ok ms.
 Proof.
-  induction codes as [|c t IH]; intros ms H Hb; cbn [decode_meths] in H.
+  induction codes as [|c t IH]; intros ms H; cbn [decode_meths] in H.
   - injection H as <-. constructor.
-  - destruct (decode_meth c) as [m|] eqn:Em; [|discriminate].
-    destruct (decode_meths t) as [mt|] eqn:Et; [|discriminate]. injection H as <-.
-    constructor.
-    + apply (decode_meth_ok allow c m Em). intros ->. apply Hb. reflexivity.
-    + apply IH; [reflexivity|]. intros Ht. apply Hb. unfold has_b64 in *. cbn [existsb]. rewrite Ht. apply orb_true_r.
+  - destruct (decode_meth c) as [m|] eqn:Em; [|discriminate H].
+    destruct (decode_meths t) as [mt|] eqn:Et; [|discriminate H]. injection H as <-.
+    constructor; [eapply decode_meth_ok; eauto | apply IH; reflexivity].
 Qed.
 
 (* every record type whose scan T1 resolves: its record data scan, started in
    a protocol state, ends in a protocol state or an error -- no assertion, no
-   index panic, no underflow, no loop that runs out of fuel.  For the types
-   that use the Base 64 converter the converter's totality is a premise. *)
+   index panic, no underflow, no loop that runs out of fuel *)
 Theorem type_scan_total rt codes ms origin s :
   In (rt, codes) type_scans -> decode_meths codes = Some ms ->
-  (has_b64 codes = true -> forall c sym, no_panic (b64_process c sym)) ->
   PInv s -> good PInv (run_type_scan origin ms s).
 Proof.
-  intros _ Hd Hb HP. destruct (has_b64 codes) eqn:E.
-  - apply (run_type_scan_good true); auto. apply (decode_meths_ok true codes ms Hd). auto.
-  - apply (run_type_scan_good false); auto; try discriminate. apply (decode_meths_ok false codes ms Hd). intros H; congruence.
+  intros _ Hd HP. apply run_type_scan_good; [|exact HP]. eapply decode_meths_ok; eauto.
 Qed.
 
 (* the state in which scan_entry hands over to the record data scan *)
